@@ -427,7 +427,7 @@ class VariableCovarianceGaussianEnergy(LikelihoodEnergyOperator):
         myassert(key in self._domain.keys())
         cst = c_inp[key]
         if key == self._kr:
-            res = _SpecialGammaEnergy(cst).ducktape(self._ki)
+            res = _SpecialGammaEnergy(cst, self._use_full_fisher).ducktape(self._ki)
         else:
             icov = makeOp(cst, sampling_dtype=self._dt[self._kr])
             res = GaussianEnergy(data=None, inverse_covariance=icov).ducktape(self._kr)
@@ -455,11 +455,12 @@ class VariableCovarianceGaussianEnergy(LikelihoodEnergyOperator):
 
 
 class _SpecialGammaEnergy(LikelihoodEnergyOperator):
-    def __init__(self, residual):
+    def __init__(self, residual, use_full_fisher=True):
         from .simplify_for_const import ConstantOperator
 
         self._domain = DomainTuple.make(residual.domain)
         self._resi = residual
+        self._use_full_fisher = use_full_fisher
         self._cplx = iscomplextype(self._resi.dtype)
         self._dt = self._resi.dtype
         super(_SpecialGammaEnergy, self).__init__(
@@ -482,8 +483,17 @@ class _SpecialGammaEnergy(LikelihoodEnergyOperator):
         return res.add_metric(self.get_metric_at(x.val))
 
     def get_transformation(self):
-        sc = 1. if self._cplx else np.sqrt(0.5)
-        return self._dt, Operator.identity_operator(self._domain).log().scale(sc)
+        ivar = Operator.identity_operator(self._domain)
+        if self._use_full_fisher:
+            sc = 1. if self._cplx else np.sqrt(0.5)
+            return self._dt, ivar.log().scale(sc)
+        # Same local approximation as in
+        # `VariableCovarianceGaussianEnergy.get_transformation` with the
+        # residual held fixed
+        sc = 1. if self._cplx else 0.5
+        f = (makeOp(self._resi) @ ivar.real.sqrt()).ducktape_left("residual") \
+            + ivar.real.log().scale(sc).ducktape_left("inverse_covariance")
+        return {"residual": self._dt, "inverse_covariance": np.float64}, f
 
 
 class GaussianEnergy(LikelihoodEnergyOperator):
